@@ -40,7 +40,6 @@ Lemma forallb_in {A} (f : A -> bool) l x : forallb f l = true -> In x l -> f x =
 Proof. intros H Hin. rewrite forallb_forall in H. apply H. exact Hin. Qed.
 
 (* ---- list_or_single: the bracketed list, before and after simplification ---------------------------- *)
-Definition nonempty {A} (l : list A) : bool := match l with [] => false | _ => true end.
 Definition list_ne {A} (pos neg : list A) : bool := match pos, neg with [], [] => false | _, _ => true end.
 
 Lemma list_or_single_sem ps ns v :
